@@ -70,6 +70,15 @@ func checkGradient(c Case) error {
 			col := parseColor(s.Color)
 			rs[i] = render.Stop{Offset: float64(s.Offset), RGBA64: color.RGBA64{R: uint16(col.R) * 257, G: uint16(col.G) * 257, B: uint16(col.B) * 257, A: uint16(col.A) * 257}}
 		}
+		if len(c.Stops)%2 == 0 {
+			// the Gradient object was used before, with more stops and another geometry
+			prev := make([]render.Stop, 0, len(rs)+3)
+			for i := 0; i < len(rs)+3; i++ {
+				prev = append(prev, render.Stop{Offset: float64(i) / float64(len(rs)+2), RGBA64: color.RGBA64{R: 0x1111, G: 0x2222, B: 0x3333, A: 0xffff}})
+			}
+			g.Init(render.Shape(1-b2i(c.Radial)), render.Spread((c.Spread+1)&3), render.Aff3{1, 2, 3, 4, 5, 6}, prev)
+			g.At(3, 4)
+		}
 		if !g.Init(render.Shape(b2i(c.Radial)), render.Spread(c.Spread), render.Aff3(c.Matrix), rs) {
 			return harness.Violatef("c15/init", "Gradient.Init rejects %d valid stops", len(rs))
 		}
